@@ -188,7 +188,8 @@ Section Proofs3.
   Lemma walk_roots_fuel_le f f' r : (f <= f')%nat ->
     walk_roots B blen parse st f = Some r -> walk_roots B blen parse st f' = Some r.
   Proof.
-    intro Hle. unfold walk_roots. revert r. induction (st_roots st) as [|x l IH]; intros r H; [exact H|].
+    intro Hle. unfold walk_roots. change (checked_roots B st) with (st_roots st).
+    revert r. induction (st_roots st) as [|x l IH]; intros r H; [exact H|].
     simpl in *. destruct (fold_right _ _ l) as [[es ps]|] eqn:E; [|discriminate].
     rewrite (IH _ eq_refl). destruct (walk f x) as [[e1 p1]|] eqn:Ew; [|discriminate].
     rewrite (walk_fuel_le f f' x _ Hle Ew). exact H.
@@ -258,7 +259,8 @@ Section Proofs3.
     destruct (negb (st_meta_ok st)); [discriminate|].
     destruct (negb (st_index_ok st) && x_unreadable_index_aborts_check); [discriminate|].
     assert (G : walk_roots B blen parse st f <> None).
-    { unfold walk_roots. induction (st_roots st) as [|x l IH]; [discriminate|]. simpl.
+    { unfold walk_roots. change (checked_roots B st) with (st_roots st).
+      induction (st_roots st) as [|x l IH]; [discriminate|]. simpl.
       destruct (fold_right _ _ l) as [[es ps]|] eqn:E.
       - destruct (walk f x) as [[e1 p1]|] eqn:Ew; [discriminate|].
         exfalso. apply (walk_fuel_sufficient_rank rank Hr f x); [apply Hf; left; reflexivity|exact Ew].
